@@ -5,7 +5,6 @@
    77caaad; Gen.Category is regenerated from the current MessageCategory. *)
 From Coq Require Import ZArith List Bool Arith Permutation String.
 Require Import Model.Base Gen.Category Model.Runner Spec.RunnerSpec Proofs.RunnerProofs Proofs.RunnerC03.
-Require Model.ReportLabels Proofs.ReportLabelsProofs.
 Import ListNotations.
 
 (* every finding produced for a definition of a user file (and every parser
@@ -178,42 +177,11 @@ Definition ex_L : def := mkDef KTemplate 3 1 [] None [ex_included] [].
 Definition ex_p : project := mkProject [ex_missing; ex_included] [ex_T; ex_U; ex_L] [0%Z].
 Definition ex_o : opts := mkOpts Warning [] true true.
 
-(* ---- third audit: WHERE a finding is located --------------------------------
-   Model.Runner carries [r_pfiles] (`Report::primary_file_ids()`); Model.ReportLabels mirrors the only three writers of a
-   report's labels (Report::new, add_primary, add_secondary).  For every sequence of add_primary / add_secondary calls:
-   primary_file_ids is the list of the file ids of the primary labels (secondary labels never contribute) ... *)
-Theorem C03_primary_file_ids_are_the_primary_label_files : forall ops,
-  ReportLabels.lr_pfiles (ReportLabels.build ops) = map ReportLabels.l_file (ReportLabels.lr_primary (ReportLabels.build ops)) /\
-  ReportLabels.lr_primary (ReportLabels.build ops) = ReportLabelsProofs.primary_ops ops /\
-  ReportLabels.lr_secondary (ReportLabels.build ops) = ReportLabelsProofs.secondary_ops ops.
-Proof. exact ReportLabelsProofs.pfiles_are_primary_label_files. Qed.
-Print Assumptions C03_primary_file_ids_are_the_primary_label_files.
-
-(* ... the file filter of cli/src/main.rs (the same function in Model.Runner) drops such a report iff it HAS primary
-   labels and ALL of them lie in files that were only included ... *)
-Theorem C03_file_filter_reads_the_primary_labels : forall user ops,
-  (forall r, Runner.filter_by_file r user = ReportLabels.filter_by_file user (r_pfiles r)) /\
-  (ReportLabels.filter_by_file user (ReportLabels.lr_pfiles (ReportLabels.build ops)) = false <->
-   ReportLabels.lr_primary (ReportLabels.build ops) <> [] /\
-   forall l, In l (ReportLabels.lr_primary (ReportLabels.build ops)) -> ~ In (ReportLabels.l_file l) user).
-Proof.
-  exact (fun user ops => conj (fun r => ReportLabelsProofs.runner_filter_is_filter_by_file r user)
-                              (ReportLabelsProofs.dropped_iff_all_primary_labels_included_only user ops)).
-Qed.
-Print Assumptions C03_file_filter_reads_the_primary_labels.
-
-(* ... and the clause `not located solely in a file that was only included` of [keep] (Spec.RunnerSpec, stated on
-   r_pfiles) is that statement about the labels for every report whose r_pfiles a producer built this way.  The
-   hypothesis [r_pfiles r = lr_pfiles (build ops)] is evaluated on every report of every explored project: the
-   `primary_file_ids()` of the real Report are compared with the file ids of its primary labels (lib/e2e.py
-   pfile_problems; coverage shapes_reached.primary_file_ids_compared_with_the_primary_labels). *)
-Theorem C03_located_only_in_included_on_labels : forall user ops (r : report),
-  r_pfiles r = ReportLabels.lr_pfiles (ReportLabels.build ops) ->
-  (located_only_in_included user r <->
-   ReportLabels.lr_primary (ReportLabels.build ops) <> [] /\
-   forall l, In l (ReportLabels.lr_primary (ReportLabels.build ops)) -> ~ In (ReportLabels.l_file l) user).
-Proof. exact ReportLabelsProofs.located_only_in_included_on_labels. Qed.
-Print Assumptions C03_located_only_in_included_on_labels.
+(* (fourth audit) The three statements about Model.ReportLabels added after the third audit
+   (primary_file_ids = the file ids of the primary labels for every add_primary / add_secondary sequence; the file
+   filter read on the labels) are no longer obligations: they are inductions over a three-line hand mirror that nothing
+   extracts or compares (lemmas of Proofs.ReportLabelsProofs, kept).  What ties `primary_file_ids()` to the labels is the
+   comparison made on every report of every run (lib/e2e.py Truth.pfile_problems), and the oracle reads the labels. *)
 
 Example C03_witnesses :
   wf_project ex_p /\
